@@ -182,9 +182,10 @@ PROPS = {
             B("w_expr.cpp", "expr", quick=14, thorough=240, params="faults=1", oracles=["c02."] + RT_MEM + RT_LIB),
             B("w_expr.cpp", "expr", quick=8, thorough=120, params="faults=0", oracles=["c02."] + RT_MEM + RT_LIB),
             B("w_expr.cpp", "expr", cfg="S17r", quick=8, thorough=120, params="faults=1", oracles=["c02."] + RT_MEM + RT_LIB),
+            B("w_expr.cpp", "expr", quick=8, thorough=120, params="faults=1,alloc=1", oracles=["c02.", "c04.live-registration"] + RT_MEM + RT_LIB),
         ],
-        level_text=("Seeded sender-interpreter runs: a random expression tree (depth<=4, <=12 nodes, <=8 scripted leaves) over the real library adaptors, each node re-erased through a harness any_snd so that every edge is a tap; leaves complete inline or later on two actor threads with value/error/done and react to stop or ignore it; an external stop request is placed before start, after k yields or when a chosen leaf has started; faults: throwing callables, a throwing k-th Val copy, spurious weak-CAS failures and wake-ups; the root op state is destroyed inside the root receiver's completion in most runs. C02 oracles: tracked Val objects (construct-on-live, double destroy, use after destroy, leak), every op state of every node destroyed exactly once and never while started-and-uncompleted, arena leak check, shadow memory on every library access after the root op was freed inside its completion."),
-        level_note=('Trusted: as C01. Allocation-failure injection is not yet wired into this workload (spawn/allocate are in the scope/future checks).'),
+        level_text=("Seeded sender-interpreter runs: a random expression tree (depth<=4, <=12 nodes, <=8 scripted leaves) over the real library adaptors, each node re-erased through a harness any_snd so that every edge is a tap; leaves complete inline or later on two actor threads with value/error/done and react to stop or ignore it; an external stop request is placed before start, after k yields or when a chosen leaf has started; faults: throwing callables, a throwing k-th Val copy, spurious weak-CAS failures and wake-ups; the root op state is destroyed inside the root receiver's completion in most runs. C02 oracles: tracked Val objects (construct-on-live, double destroy, use after destroy, leak), every op state of every node destroyed exactly once and never while started-and-uncompleted, arena leak check, shadow memory on every library access after the root op was freed inside its completion. The alloc=1 batch lets operator new fail (seeded, on the connecting thread only) anywhere inside the top-level connect() - the heap operation of any_sender_of and every nested connect - and requires the exception to propagate out of connect() with every partially built operation state destroyed once, no stop-callback registration left behind and no leak."),
+        level_note=('Trusted: as C01. Allocation failures are injected during connect only: start() and the completion paths are noexcept, an allocation failure there terminates by design (spawn/allocate failures are in the scope/future checks).'),
         real=["just/just_error/just_done, then, upon_error, upon_done, let_value, let_error, let_done, finally, sequence, when_all (2-3), stop_when, unstoppable, via, on, with_query_value, materialize+dematerialize, done_as_optional, let_value_with_stop_source", "single_thread_context/manual_event_loop, inline_scheduler", "inplace_stop_source, inplace_stop_token_adapter, fused_stop_source"],
         stub=["harness leaves, taps and erased any_snd plumbing (kit/expr.hpp)", "kit::sim_stop_source", "pthread layer, heap (usim)"],
     ),
